@@ -18,11 +18,11 @@ except ImportError:      # imported with tools/props on sys.path
 
 PROP = "C19"
 LEVEL = "proof"
-GEN_UNITS = ["GenUtils"]
+GEN_UNITS = ["GenUtils", "GenUtils2"]
 COQ_TARGETS = ["Props/C19.vo", "Model/Harness.vo"]
 THEOREM_FILES = ["Props/C19.v"]
 COQ_IMPORTS = ("From Coq Require Import List ZArith Bool.\n"
-               "From PV Require Import Np.NpZ Gen.GenUtils Model.C19Guards.\nLocal Open Scope Z_scope.\n")
+               "From PV Require Import Np.NpZ Np.NpZ2 Gen.GenUtils Gen.GenUtils2 Model.C19Guards.\nLocal Open Scope Z_scope.\n")
 RULE = ("malformed stream: per operation and per precondition, descriptors violating exactly that precondition over a pool of "
         "shapes (distinct sizes, cubical, singleton modes, 1-way, 2-way) incl. length-1 vectors, swapped matrix dims, short "
         "factor lists, repeated/negative/out-of-range modes, non-permutations (too short, over-long with repeats that still mention "
@@ -59,14 +59,18 @@ def gen_cases(rng, tier):
             if k in seen:
                 continue
             seen.add(k)
-            bytag.setdefault(tag, []).append(c)
+            bytag.setdefault((tag, args.get("rk"), args.get("rk2"), args.get("mk")), []).append(c)
         total = sum(len(v) for v in bytag.values())
         cap = CAP[tier]
         if total > cap:
-            per = max(8, cap // len(bytag))
+            # buckets = (violated precondition, operand kinds); the default kinds get the larger share
+            ndef = sum(1 for k in bytag if k[1:] == (None, None, None))
+            per = max(8, cap // max(1, ndef))
+            per_kind = max(1, (cap // 2) // max(1, len(bytag) - ndef))      # the non-default kinds together get about cap/2 more
             for tag in bytag:
-                if len(bytag[tag]) > per:
-                    bytag[tag] = rng.sample(bytag[tag], per)
+                lim = per if tag[1:] == (None, None, None) else per_kind
+                if len(bytag[tag]) > lim:
+                    bytag[tag] = rng.sample(bytag[tag], lim)
         for tag in bytag:
             cases += bytag[tag]
     return cases
